@@ -575,6 +575,35 @@ func runC24(c *Ctx) {
 			c.underFact("C24.a alias-not-leaked", "(*mqtt.Server).publishToClient blanks the topic only when the alias already existed for this connection", blank, textHas("(*mqtt.OutboundTopicAliases).Set(", "#1"), true, "")
 		}
 	}
+	// alias tables belong to one connection: they are only ever set to fresh tables
+	nAl := 0
+	for _, fn := range c.ModFns {
+		if fnPkgPath(fn) != modPath {
+			continue
+		}
+		for _, ins := range instrs(fn) {
+			st, ok := ins.(*ssa.Store)
+			if !ok {
+				continue
+			}
+			fa, ok := st.Addr.(*ssa.FieldAddr)
+			if !ok {
+				continue
+			}
+			fld := fieldName(fa.X.Type(), fa.Field)
+			owner := fa.X.Type().String()
+			isAlias := (fld == "TopicAliases" && strings.HasSuffix(owner, "ClientState")) || ((fld == "Inbound" || fld == "Outbound") && strings.HasSuffix(owner, "TopicAliases"))
+			if !isAlias {
+				continue
+			}
+			nAl++
+			d := describe(st.Val)
+			fresh := strings.HasPrefix(d, "mqtt.NewTopicAliases(") || strings.HasPrefix(d, "mqtt.NewOutboundTopicAliases(") || strings.HasPrefix(d, "mqtt.NewInboundTopicAliases(")
+			c.ob("C24.c alias-bounds", fmt.Sprintf("%s sets %s to a fresh alias table", fname(rootFn(fn)), describe(st.Addr)), c.pos(st.Pos()), fresh,
+				"alias bindings are scoped to one network connection: a table carried over from another connection ("+d+") makes the broker use aliases the new connection never bound and accept aliases it never sent")
+		}
+	}
+	c.floor("C24.c alias table assignments", nAl, 3)
 	if f := c.fn("mqtt", "(*OutboundTopicAliases).Set"); f != nil {
 		for _, r := range returns(f) {
 			d := describe(rvs(r)[0])
